@@ -66,9 +66,10 @@ DiskFails(o) ==
           IF r.ok THEN Fail(\A k \in Keys : r.idx[k] # Absent => r.idx[k] \in SeqToSet(o.cas), "C04:dangling-after-crash") ELSE {}
         }
 \* at quiescence (every call returned, none failed): snapshot plus log, decoded independently, equal the state the handle shows
-QuiescentDiskFails(o) ==
-    IF ~("disk" \in DOMAIN o) \/ ~o.has_idx THEN {} ELSE
-    LET r == Recover(DiskOfJson(o.disk), sc.n) IN
+\* (dj: the directory as decoded after the last step - carried by the `end` line; null if no step was recorded)
+QuiescentDiskFails(o, dj) ==
+    IF ~o.has_idx \/ ~("segs" \in DOMAIN dj) THEN {} ELSE
+    LET r == Recover(DiskOfJson(dj), sc.n) IN
     Fail(r.ok /\ r.idx = o.idx, "C20:decode-equals-history")
 
 Init == l = 1 /\ s = ConcInit(1, EmptyIdx, {}, 1, <<>>, <<>>) /\ sc = [sid |-> "", sched |-> "", threads |-> <<>>, n |-> 1, plant |-> <<>>, stgleft |-> FALSE]
@@ -160,7 +161,7 @@ OnEnd == /\ Line.ev = "end"
                 Fail(lobs.has_idx /\ SeqToSet(lobs.cas) \ SeqToSet(sc.plant) = Live(lobs.idx) \ SeqToSet(sc.plant), "C07:cas-listing-at-quiescence"),
                 Fail(lobs.stg = 0 \/ (sc.stgleft /\ lobs.stg = 1), "C07:staging-at-quiescence"),
                 Fail(lobs.has_intents /\ \A k \in Keys : lobs.intents[k] = Absent, "C07:intent-left"),
-                QuiescentDiskFails(lobs),
+                QuiescentDiskFails(lobs, Line.disk),
                 Fail(AllDone(s), "DRIFT:model-not-done")
               })
          /\ UNCHANGED <<s, sc, lobs, oseen, oopi, failed>>
